@@ -79,7 +79,7 @@ CHECKS = [
           "runtime monitor: boundary event log + table snapshots checked by a history checker (reference recomputation of keys, parent, quorum)", "DESIGN.md §2 C14"),
     check("C15", "mon-agg", "fault_enumeration",
           "Fault enumeration with real process deaths: scripted honest histories over the real aggregator (rotating over three configurations: all five signed entity types / MithrilStakeDistribution + CardanoDatabase / MithrilStakeDistribution alone) run once unarmed to record which named crash points (after multi-signature, after certificate insert, after open-message update, before/after artifact computation, after signed-entity insert, after each buffered hand-over, before/after buffer removal) are hit how often; then EVERY reached (point, occurrence) is crashed once by std::process::abort() inside the aggregator in a child process, a new process restarts on the same sqlite files and a monitor checks after the restart and after every further tick: all certificates verify with their chain under the public verifier, no signed entity has two artifacts, every artifact references a stored certificate of exactly that entity, and bounded progress, judged twice: inside the epoch of the restart (3 new immutable files must give a new certified artifact when CardanoDatabase is enabled) and overall (a new certified artifact within 8 macro steps of the honest workload, epoch changes included). Double crashes are sampled.",
-          "sqlite durability; doubles of the outside world re-created at the persisted time point; exhaustive only over the crash points x occurrences reached by the base histories of the run",
+          "sqlite durability; doubles of the outside world re-created at the persisted time point; the harness's signers sign each (signer, beacon) once: a signature acknowledged before the stop is never sent again; early (buffered) signatures incl. MithrilStakeDistribution at epoch changes; the harness waits logically for the aggregator's background artifact tasks after every tick; exhaustive only over the crash points x occurrences reached by the base histories of the run",
           "runtime monitoring under injected process crashes (abort at cfg-guarded crash points), invariants + bounded progress after restart", "DESIGN.md §2 C15"),
     check("C16", "mon-agg", "exploration",
           "Runtime monitor over the real aggregator: per open message the harness produces every party's honest signature itself (ground truth of who produced which sigma), then delivers shuffled honest + adversarial submissions (own sigma under another name, another party's sigma under own / unregistered name with full or truncated index lists, replays, truncated replays under the owner's name) through the certifier API, the real warp HTTP router, the buffered path and the message-queue signature processor; after every submission the single_signature table is read independently: each row must hold a sigma that verifies under the key the labelled party registered, no sigma under two labels, acknowledged honest contributions never disappear or shrink; the sealed certificate's signer list must name only parties with such a row.",
@@ -90,7 +90,7 @@ CHECKS = [
           "security parameters are sampled up to u64::MAX (one configuration in eight above 2^40), steps up to 2^40, tips up to 2^62; the direction of rounding the step to the range length is not fixed by the statement: the oracle accepts either as long as one candidate explains every selection of a configuration",
           "runtime monitor: arithmetic reference oracle over an exhaustive grid + random samples", "DESIGN.md §2 C17"),
     check("C18", "mon-pool", "exploration",
-          "Runtime monitor over the real ResourcePool with resources tagged by the generation that created them: one atomic global sequence counter stamps acquire call/return, give-back (explicit item / drop / raw), refresh begin/complete and count samples; a happens-before checker asserts (S1) an acquire called after refresh_complete(g) returns a tag >= g, (S2) no resource held twice, (S3) count <= size always, (S4, bounded) blocked callers wake or time out. Levels: exhaustive single-threaded histories (10-operation alphabet up to length 6, pool sizes 1-3), 6.4k random histories, 336 multi-threaded stress runs (2-12 threads, with and without seeded delays at the four cfg-guarded hook points between the pool's critical sections; tens of thousands of distinct refresh-window event orders), wake-up scenarios; thorough adds Miri seeds (distinct replayable interleavings, UB/data-race checking) and a ThreadSanitizer run on an FFI-free build of the same source file.",
+          "Runtime monitor over the real ResourcePool with resources tagged by the generation that created them: one atomic global sequence counter stamps acquire call/return, give-back (explicit item / drop / raw), refresh begin/complete and count samples; a happens-before checker asserts (S1) an acquire called after refresh_complete(g) returns a tag >= g, (S2) no resource held twice, (S3) count <= size always, (S4, bounded) blocked callers wake or time out. Levels: exhaustive single-threaded histories (10-operation alphabet up to length 6, pool sizes 1-3), exhaustive refresh-window histories (every sequence of up to 3 operations of a second actor at every scheduling point inside the refresher's own call sequence), 6.4k random histories, 336 multi-threaded stress runs (2-12 threads, with and without seeded delays at the four cfg-guarded hook points between the pool's critical sections; tens of thousands of distinct refresh-window event orders), wake-up scenarios; thorough adds Miri seeds (distinct replayable interleavings, UB/data-race checking) and a ThreadSanitizer run on an FFI-free build of the same source file.",
           "the prover-level race (compute_cache vs proof requests) is represented by a refresher thread performing exactly the prover's call sequence; S4 is wall-clock based and can only make a run inconclusive",
           "runtime monitor: sequence-stamped event log + happens-before checker under stress, seeded delay hooks, Miri and TSan", "DESIGN.md §2 C18"),
     check("C19", "mon-client", "exploration",
